@@ -1,0 +1,39 @@
+//go:build verif
+
+// Verification hooks: run the unexported command bodies with an injected client, compiled only with -tags verif.
+package canary
+
+import (
+	"io"
+
+	"k8s.io/cli-runtime/pkg/genericclioptions"
+	"sigs.k8s.io/controller-runtime/pkg/client"
+)
+
+func verifStreams() genericclioptions.IOStreams {
+	return genericclioptions.IOStreams{Out: io.Discard, ErrOut: io.Discard}
+}
+
+// VerifRunPause runs `canary pause` (pause=true) or `canary unpause` (pause=false).
+func VerifRunPause(c client.Client, namespace, name string, pause bool) error {
+	o := newPauseOptions(verifStreams(), pause)
+	o.client, o.userNamespace, o.userExtendedDaemonSetName, o.args = c, namespace, name, []string{name}
+
+	return o.run()
+}
+
+// VerifRunValidate runs `canary validate`.
+func VerifRunValidate(c client.Client, namespace, name string) error {
+	o := newValidateOptions(verifStreams())
+	o.client, o.userNamespace, o.userExtendedDaemonSetName, o.args = c, namespace, name, []string{name}
+
+	return o.run()
+}
+
+// VerifRunFail runs `canary fail`.
+func VerifRunFail(c client.Client, namespace, name string) error {
+	o := newfailOptions(verifStreams(), cmdFail)
+	o.client, o.userNamespace, o.userExtendedDaemonSetName, o.args = c, namespace, name, []string{name}
+
+	return o.run()
+}
